@@ -59,7 +59,7 @@ Inductive position :=
   | PBody | PIfBody | PIfElse | PElifBody | PElifElse | PForBody
   | PForElse | PWhileBody | PWhileElse | PTryBody | PExceptBody | PTryElse
   | PFinally | PWithBody | PNestedDefBody | PMatchCaseBody | PExceptIfElse | PClassBody
-  | PAssignValue | PAugAssignValue | PAnnAssignValue | PReturnValue | PCallArg | PKeywordArg
+  | PAssignValue | PAugAssignValue | PAnnAssignValue | PAttrAssignValue | PAttrAugAssignValue | PAttrAnnAssignValue | PSubscriptAssignValue | PChainAssignValue | PTupleAssignValue | PReturnValue | PCallArg | PKeywordArg
   | PStarArg | PKwSplatArg | PIfTest | PElifTest | PWhileTest | PTernaryTest
   | PTernaryBody | PTernaryElse | PAssertTest | PAssertMsg | PRaise | PRaiseFrom
   | PNotOperand | PNegOperand | PBinLeft | PBinRight | PBoolLeft | PBoolRight
@@ -75,7 +75,7 @@ Definition all_positions : list position :=
   [PBody; PIfBody; PIfElse; PElifBody; PElifElse; PForBody;
    PForElse; PWhileBody; PWhileElse; PTryBody; PExceptBody; PTryElse;
    PFinally; PWithBody; PNestedDefBody; PMatchCaseBody; PExceptIfElse; PClassBody;
-   PAssignValue; PAugAssignValue; PAnnAssignValue; PReturnValue; PCallArg; PKeywordArg;
+   PAssignValue; PAugAssignValue; PAnnAssignValue; PAttrAssignValue; PAttrAugAssignValue; PAttrAnnAssignValue; PSubscriptAssignValue; PChainAssignValue; PTupleAssignValue; PReturnValue; PCallArg; PKeywordArg;
    PStarArg; PKwSplatArg; PIfTest; PElifTest; PWhileTest; PTernaryTest;
    PTernaryBody; PTernaryElse; PAssertTest; PAssertMsg; PRaise; PRaiseFrom;
    PNotOperand; PNegOperand; PBinLeft; PBinRight; PBoolLeft; PBoolRight;
@@ -110,6 +110,12 @@ Definition pos_path (p : position) : option (list field) :=
   | PAssignValue => Some [FBody; FBody; FValue]
   | PAugAssignValue => Some [FBody; FBody; FValue]
   | PAnnAssignValue => Some [FBody; FBody; FValue]
+  | PAttrAssignValue => Some [FBody; FBody; FValue]
+  | PAttrAugAssignValue => Some [FBody; FBody; FValue]
+  | PAttrAnnAssignValue => Some [FBody; FBody; FValue]
+  | PSubscriptAssignValue => Some [FBody; FBody; FValue]
+  | PChainAssignValue => Some [FBody; FBody; FValue; FValue]
+  | PTupleAssignValue => Some [FBody; FBody; FValue; FChildren]
   | PReturnValue => Some [FBody; FBody; FValue]
   | PCallArg => Some [FBody; FBody; FArgs]
   | PKeywordArg => Some [FBody; FBody; FKeywords; FValue]
@@ -202,6 +208,47 @@ Definition reached (walk : list string) (skip : nat) (p : position) (extra : lis
   | Some path => path_walked walk (skipn skip path ++ extra)
   end.
 
+(* ---- argument slots: a mention written INSIDE the call of another mention ----
+   X(Inner()), X(k=Inner()), X( *Inner()), X( **Inner()), X([Inner()]); likewise for self.m(...).
+   [slot_path] is the field path from the host's Call node down to the root node of the nested
+   expression (ast_builder.go: buildCall / buildCallArguments); checked against the parser with
+   "find-path" like [pos_path].  A nested mention is described by the position of the outermost
+   mention of its statement and the chain of slots that leads down to it. *)
+Inductive slot := SArg | SKeyword | SStarArg | SKwSplat | SListArg.
+Definition all_slots : list slot := [SArg; SKeyword; SStarArg; SKwSplat; SListArg].
+Definition slot_path (s : slot) : list field :=
+  match s with
+  | SArg => [FArgs]
+  | SKeyword => [FKeywords; FValue]
+  | SStarArg => [FArgs; FChildren]
+  | SKwSplat => [FArgs; FChildren]
+  | SListArg => [FArgs; FChildren]
+  end.
+
+(* [reached_at walk skip p slots extra]: as [reached], for the mention nested through [slots]
+   inside the mention at position [p] *)
+Definition reached_at (walk : list string) (skip : nat) (p : position) (slots : list slot) (extra : list field) : bool :=
+  match pos_path p with
+  | None => false
+  | Some path => path_walked walk (skipn skip path ++ flat_map slot_path slots ++ extra)
+  end.
+Lemma reached_at_nil : forall walk skip p extra, reached_at walk skip p [] extra = reached walk skip p extra.
+Proof. reflexivity. Qed.
+
+Lemma path_walked_app : forall walk a b, path_walked walk (a ++ b) = path_walked walk a && path_walked walk b.
+Proof. intros; unfold path_walked; apply forallb_app. Qed.
+
+(* a walker that traverses every slot path reaches a nested mention whenever it reaches the same
+   node un-nested *)
+Lemma reached_at_slots : forall walk skip p slots extra,
+  (forall s, path_walked walk (slot_path s) = true) ->
+  reached walk skip p extra = true -> reached_at walk skip p slots extra = true.
+Proof.
+  intros walk skip p slots extra Hs. unfold reached, reached_at. destruct (pos_path p) as [path|]; [| auto].
+  rewrite !path_walked_app. intros H. apply andb_true_iff in H as [H1 H2]. rewrite H1, H2, andb_true_r. simpl.
+  induction slots as [| s r IH]; simpl; [reflexivity|]. rewrite path_walked_app, Hs, IH. reflexivity.
+Qed.
+
 (* ---- class references and type annotations ---- *)
 (* a class reference as written: X is (0, X); mod.X is (mod, X) *)
 Definition cref := (N * N)%type.
@@ -235,7 +282,10 @@ Inductive kind :=
   | KAttr (obj x : name)        (* obj.x : self.x, cls.x, other.x *)
   | KCall (obj m : name).       (* obj.m() *)
 
-Record mention := Mention { m_kind : kind; m_pos : position }.
+(* a mention: its kind, the position of the outermost mention of its statement, and the chain of
+   argument slots from that outermost mention down to it ([] for the outermost mention itself) *)
+Record mention := MentionAt { m_kind : kind; m_pos : position; m_slots : list slot }.
+Definition Mention (k : kind) (p : position) : mention := MentionAt k p [].
 
 Record method := Method {
   md_name : name;
